@@ -13,7 +13,7 @@ COMMON_ASSUMPTIONS = [
 
 ARITH_RULE = ("all 506 layouts; operands: every value of the 8-bit layouts (all 65536 pairs), every value of the 16-bit layouts for unary "
               "operations, boundary alphabet B(w, frac) (powers of two and neighbours, limb/carry combinations, layout-relative values, "
-              "extremes; full square BxB for binary operations, plus related pairs (k*y + {-1,0,1}, y) in both orders for 12 factors k, plus, for unary operations, ties at every integer part of the alphabet; quick tier: also powers of two at every exponent with essential partners and with the partners that put the product / quotient on the overflow / underflow boundary) otherwise; every form the API provides incl. by-reference and assigning "
+              "extremes; full square BxB for binary operations, plus related pairs (k*y + {-1,0,1}, y) in both orders for 12 factors k, plus, for unary operations, ties at every integer part of the alphabet; for 128-bit layouts pairs constructed from intermediate values (cross-product sums next to a multiple of 2^128, squares, quotients with half-digits at the top of their range over divisors with low half > high half); quick tier: also powers of two at every exponent with essential partners and with the partners that put the product / quotient on the overflow / underflow boundary) otherwise; every form the API provides incl. by-reference and assigning "
               "operators, integer-on-the-left products, the inherent bodies of the deprecated rem_int forms, Sum / Product of sequences of at most two elements, the limits and layout constants of each type (C02); the plain forms are judged where the exact result is representable; a state is one (layout, operand tuple), a transition one executed call compared with exact integer arithmetic; "
               "non-trivial = at least one non-zero operand and at least one judged comparison")
 
@@ -25,7 +25,7 @@ PRIM_RULE = ("every compiled layout (90 quick: all 8-bit layouts + boundary frac
              "boundary alphabet otherwise; floats: every exponent (f32; f64 thorough, quick: +-140 around the bias and the extremes) x "
              "structured mantissas x both signs, incl. zeros, subnormals, largest finite binade, infinities, NaNs; comparisons also against the floor of the value +-1 (integers) and the nearest float +-1, +-2 ulp; float -> fixed conversions also on floats related to the layout ((4v + q)/4 ulp for q = -3..3 around the extremes, 0, 1 and every ninth boundary value, with their float neighbours); From / LossyFrom existence and value for every one of the 506 layouts also in the quick tier (probe-only table, with float conversions and comparisons on thin sets), LossyFrom between primitives; ")
 
-TRANS_RULE = """type pairs S->D: I9F23, I9F55, I16F48, I32F32, I41F23, I9F119, I40F88, I64F64, I96F32, I105F23 onto themselves, I9F23->{I32F32, I64F64, I9F55, I10F54, I96F32}, I32F32->I64F64, I16F48->I40F88, and for sqrt U9F23, U9F55, U32F32, U9F119, U64F64, U96F32, U105F23, U9F23->U64F64, U32F32->U96F32; operands: boundary alphabet, integers 0..300 and halves, neighbourhoods of 1 and 2, 1 +- 2^-k for every k, (m/2)^2 +- {0, 1, 2, m-1, m, m+1, 2m, 3m-1, 3m, 10m} ulp for sqrt, dyadic-logarithm bases for pow, the representable neighbours of 2^(k + j/8) in every octave (thorough j/32), a grid of 2^g values per octave over the whole range of the type (g = 5 quick / 9 thorough; 3 / 7 for 128-bit sources), both signs; thorough: every one of the 2^32 bit patterns of I9F23 and U9F23; second engine (transx): every other supported layout onto itself (all 64-bit types with 9..41 integer bits and all 128-bit types with 9..105 integer bits: 121 further signed pairs, 134 unsigned ones for sqrt), 57 widening pairs (I9F23 into every supported 64-bit layout and 12 128-bit ones; six 64-bit sources into the 128-bit layouts with equal fractional bits, equal integer bits and in between), 9 unsigned-to-signed pairs, with thinner operand sets in the quick tier (boundary alphabet, integers 0..20, neighbours of 2^(k + j/4), 2 grid values per octave; pow/powi on every 7th/11th of those plus the essential values) and the quick-tier sets above in the thorough tier; """
+TRANS_RULE = """type pairs S->D: I9F23, I9F55, I16F48, I32F32, I41F23, I9F119, I40F88, I64F64, I96F32, I105F23 onto themselves, I9F23->{I32F32, I64F64, I9F55, I10F54, I96F32}, I32F32->I64F64, I16F48->I40F88, and for sqrt U9F23, U9F55, U32F32, U9F119, U64F64, U96F32, U105F23, U9F23->U64F64, U32F32->U96F32; operands: boundary alphabet, integers 0..300 and halves, neighbourhoods of 1 and 2, 1 +- 2^-k for every k, (m/2)^2 +- {0, 1, 2, m-1, m, m+1, 2m, 3m-1, 3m, 10m} ulp for sqrt, dyadic-logarithm bases for pow, 2^e / k rounded both ways for k in {3, 5, ..., 17, 100}, the representable neighbours of 2^(k + j/8) in every octave (thorough j/32), a grid of 2^g values per octave over the whole range of the type (g = 5 quick / 9 thorough; 3 / 7 for 128-bit sources), both signs; thorough: every one of the 2^32 bit patterns of I9F23 and U9F23; second engine (transx): every other supported layout onto itself (all 64-bit types with 9..41 integer bits and all 128-bit types with 9..105 integer bits: 121 further signed pairs, 134 unsigned ones for sqrt), 57 widening pairs (I9F23 into every supported 64-bit layout and 12 128-bit ones; six 64-bit sources into the 128-bit layouts with equal fractional bits, equal integer bits and in between), 9 unsigned-to-signed pairs, with thinner operand sets in the quick tier (boundary alphabet, integers 0..20, neighbours of 2^(k + j/4), 2 grid values per octave; pow/powi on every 7th/11th of those plus the essential values) and the quick-tier sets above in the thorough tier; """
 TRIG_RULE = ("types I9F23, I9F55, I16F48, I32F32, I41F23, I9F119, I40F88, I64F64, I96F32, I105F23 (second engine: the other 121 supported 64- and 128-bit layouts, quick tier with a 2^-2 grid and a reduced neighbourhood set); angles: every multiple of 2^-5 (thorough 2^-10) in [-200, 200] "
              "([-100, 100] for tan), boundary alphabet inside the range, the neighbourhood (0, +-1, +-2, +-100 ulp, +-2^-m for m = 1..24) of each multiple of pi/2 up "
              "to 130 pi/2; thorough: every I9F23 angle in the range (3.36e9 for sin and cos, 1.68e9 for tan); ")
